@@ -475,4 +475,38 @@ def Arg.pyClass : Arg → String
 /-- `isinstance(a, cls)` -/
 def isInstance (t : ClassTable) (a : Arg) (cls : String) : Bool := isSubclass t a.pyClass cls
 
+/-! ### query frames that write the SAME condition object twice (if / else) -/
+
+/-- The if/else frame `or_(and_(c', A), and_(not_(c'), B))` around the condition `c' = [not_] call`: `A` and `B` are
+guards over the same variables as the call that hold (`true`) or do not hold (`false`) for every candidate. Both
+operands of the `or_` mention the same variables, so `optimize_or` builds an `ElseIf`: the right operand is evaluated
+only from the bindings of a false result of the left one. -/
+structure Frame where
+  thenHolds : Bool
+  elseHolds : Bool
+  deriving DecidableEq, Repr
+
+/-- The observation of the framed query, from the observation `pos` of `and_(pre…, c')` and `negd` of
+`and_(pre…, not_(c'))`. The left operand instantiates the call once per candidate binding (the log of `pos`); the second
+occurrence of the SAME condition object is met with the bindings of the first (`Variable._evaluate__`, branch
+`self._id_ in sources`): its truth is read from the binding, the callable is NOT invoked again - the log stays
+`pos.log`. A candidate is a result iff the call holds and `A` does, or the call does not hold and `B` does. -/
+def Obs.framed (f : Frame) (pos negd : Obs) : Obs :=
+  { log := pos.log
+    rows := (if f.thenHolds then pos.rows else []) ++ (if f.elseHolds then negd.rows else []) }
+
+/-- a call that is executed immediately, is rejected, or whose evaluation raises is not changed by the frame -/
+def Outcome.framed (f : Frame) : Outcome → Outcome → Outcome
+  | .symbolic (.ok a), .symbolic (.ok b) => .symbolic (.ok (Obs.framed f a b))
+  | o, _ => o
+
+/-- model of a history of the framed query (the query object is built once, evaluated in every world) -/
+def runFramedHistory (q : Quirks) (knobs : Knobs) (f : Frame) (x : Experiment) (before ws : List World) : List Outcome :=
+  List.zipWith (Outcome.framed f) (runHistory q knobs x before ws)
+    (runHistory q knobs { x with neg := !x.neg } before ws)
+
+/-- specification of the framed query: per world, the candidates for which "if the concrete call holds then A else B" -/
+def specFramedHistory (f : Frame) (x : Experiment) (ws : List World) : List Outcome :=
+  List.zipWith (Outcome.framed f) (specHistory x ws) (specHistory { x with neg := !x.neg } ws)
+
 end KrroodVerif.Pred
